@@ -352,8 +352,13 @@ func buildExpressionEx(input map[string]interface{}, depth int) (string, bool, e
 
 				return strconv.Quote(valueType), true, nil
 			case float64:
+				numStr := strconv.FormatFloat(valueType, 'f', -1, 64)
+				if !strings.Contains(numStr, ".") && (valueType >= 9223372036854775808.0 || valueType < -9223372036854775808.0) {
+					// digits only would be read back as an integer literal, which cannot hold this value
+					numStr += ".0"
+				}
 
-				return strconv.FormatFloat(valueType, 'f', -1, 64), true, nil
+				return numStr, true, nil
 			case bool:
 				if valueType {
 
